@@ -651,7 +651,7 @@ def run(ctx: fw.Ctx):
     ctx.assumptions = [
         "stdin and stdout use UTF-8 (the sandbox default; probed and recorded under coverage.environment); under another "
         "locale encoding stdin is decoded differently from -f FILE (forced UTF-8) and the channels can differ",
-        "POSIX: sys.stdin does not translate line ends (probed per run)",
+        "POSIX: sys.stdin does not translate line ends (probed per run; -f FILE is opened with newline='' to match)",
         "inputs are not lone-surrogate text (surrogate-escaped stdin bytes are exercised by the oracle, not by the model)",
     ]
     n = 45 if ctx.quick else 960
